@@ -25,8 +25,8 @@ fn declared(schema: &Schema) -> Vec<(u32, u8)> {
     v
 }
 
-/// The structural alphabet of one type.  Symbols are byte strings (multi-byte tags are one
-/// symbol).  Quick: 16 symbols, thorough: 24.
+/// The structural alphabet of one type.  Symbols are byte strings (a multi-byte tag is one
+/// symbol).  Quick: 12 symbols, thorough: 16.
 pub fn alphabet(schema: &Schema, thorough: bool) -> Vec<Vec<u8>> {
     let mut a: Vec<Vec<u8>> = vec![];
     let push = |s: Vec<u8>, a: &mut Vec<Vec<u8>>| {
@@ -39,11 +39,12 @@ pub fn alphabet(schema: &Schema, thorough: bool) -> Vec<Vec<u8>> {
         put_tag(&mut v, n, wt);
         v
     };
+    let size = if thorough { 16 } else { 12 };
     // declared tags: first one of every wire type, then in declaration order
     let decl = declared(schema);
-    let want_declared = if thorough { 7 } else { 5 };
+    let want_declared = if thorough { 4 } else { 3 };
     let mut chosen: Vec<(u32, u8)> = vec![];
-    for wt in [WT_LEN, WT_VARINT, WT_I64, WT_I32] {
+    for wt in [WT_LEN, WT_VARINT, WT_I32, WT_I64] {
         if let Some(d) = decl.iter().find(|d| d.1 == wt) {
             chosen.push(*d);
         }
@@ -57,27 +58,22 @@ pub fn alphabet(schema: &Schema, thorough: bool) -> Vec<Vec<u8>> {
     for (n, wt) in chosen {
         push(tag(n, wt), &mut a);
     }
-    // zero, small lengths / values, the largest one-byte varint, continuation bytes
-    for b in [0x00u8, 0x01, 0x02, 0x7f, 0x80, 0xff] {
+    // zero / field number 0, small lengths and values, continuation bytes
+    for b in [0x00u8, 0x01, 0x02, 0x80, 0xff] {
         push(vec![b], &mut a);
     }
-    // unknown field 15 as varint and length-delimited; a reserved wire type; a reserved number
+    // unknown field 15 as varint, length-delimited and 32-bit; a reserved wire type
     push(tag(15, WT_VARINT), &mut a);
     push(tag(15, WT_LEN), &mut a);
+    push(tag(15, WT_I32), &mut a);
     push(tag(1, 3), &mut a);
-    push(tag(19000, WT_VARINT), &mut a);
     if thorough {
         push(tag(15, WT_I64), &mut a);
-        push(tag(15, WT_I32), &mut a);
-        push(tag(1, 4), &mut a);
-        push(tag(1, 6), &mut a);
-        push(tag(1, 7), &mut a);
-        push(tag((1 << 29) - 1, WT_LEN), &mut a);
+        push(vec![0x7f], &mut a);
+        push(tag(19000, WT_VARINT), &mut a); // reserved field number
         push(vec![0x80, 0x80, 0x80, 0x80, 0x10], &mut a); // tag above u32::MAX
-        push(vec![0x04], &mut a);
     }
-    // fill up with further small bytes so that every type has the same alphabet size
-    let size = if thorough { 24 } else { 16 };
+    // types with few declared tags get further small bytes: every type has the same size
     let mut filler = 0x03u8;
     while a.len() < size {
         push(vec![filler], &mut a);
